@@ -19,14 +19,18 @@ for i in ids:
         continue
     try:
         fired = {}
+        counts = {}
         for p in claimed:
             c = subprocess.run([os.path.join(V, "check"), p], capture_output=True, text=True)
             keys = [l.strip()[5:].strip() for l in c.stdout.split("\n") if l.strip().startswith("key:")]
+            import re as _re
+            mm = _re.search(r"(\d+) rule instances", c.stdout)
+            counts[p] = int(mm.group(1)) if mm else -1
             if c.returncode != 0 and not keys:
                 keys = ["(exit %d) %s" % (c.returncode, c.stdout[-200:])]
             if keys:
                 fired[p] = keys
-        results[i] = {"fired": fired}
+        results[i] = {"fired": fired, "instances": counts}
         print(i, "silent" if not fired else "FALSE ALARM: " + "; ".join("%s %s" % (p, [k.split(":", 1)[1][:110] for k in ks[:3]]) for p, ks in fired.items()))
     finally:
         subprocess.run(["git", "-C", "/repo", "checkout", "--", "."], check=True)
